@@ -53,7 +53,7 @@ class LeafView:
         def inline(path):
             return path.startswith(CIRCUIT_CRATE + "::") or path.startswith("<" + CIRCUIT_CRATE + "::")
 
-        self.ev = T.Evaluator(prog, inline=inline, max_depth=8)
+        self.ev = T.Evaluator(prog, inline=inline, max_depth=8, names=False)
         self.frame = self.ev.frame(body)
         self.effects = self.frame.effects()
         for e in self.effects:
